@@ -82,6 +82,70 @@ class C16(Check):
         return dict(kind="recovery", w=i["w"], len=i["len"], cuts=i["cuts"], bday=i["bday"], unlocked=i["unlocked"],
                     blocks=i["blocks"][:3], next=c["obs"]["next"], balance=c["obs"]["balance"], tags=c.get("tags"))
 
+    # -- shrinking: greedy removal of interruptions, blocks, transactions and
+    #    empty stretches, re-running the real code on every candidate
+    def _rerun(self, inp, kind):
+        wd = os.path.join(WORK, self.ID)
+        os.makedirs(wd, exist_ok=True)
+        path = os.path.join(wd, "shrink_in.jsonl")
+        with open(path, "w") as f:
+            f.write(json.dumps({"in": inp}) + "\n")
+        try:
+            rc, cs, err = run_vh([self.vh_cmd(), "-replay", path], timeout=400)
+        except Exception:
+            return None
+        if rc != 0 or not cs or kind not in cs[0].get("oracle", []):
+            return None
+        return cs[0]
+
+    def _candidates(self, i):
+        import copy
+        if i["kind"] == "birthday":
+            n = len(i["ts"])
+            for cut in (n // 2, n - 1):
+                if 1 <= cut < n:
+                    j = copy.deepcopy(i); j["ts"] = i["ts"][:cut]; yield j
+            if n > 2:
+                j = copy.deepcopy(i); j["ts"] = [i["ts"][0]] + i["ts"][2:]; yield j
+            return
+        if len(i["cuts"]) > 1:
+            j = copy.deepcopy(i); j["cuts"] = [i["len"]]; yield j
+        if i["unlocked"]:
+            j = copy.deepcopy(i); j["unlocked"] = False; yield j
+        for b in range(len(i["blocks"])):
+            j = copy.deepcopy(i); del j["blocks"][b]; yield j
+        for b in range(len(i["blocks"])):
+            for t in range(len(i["blocks"][b]["txs"])):
+                if len(i["blocks"][b]["txs"]) > 1:
+                    j = copy.deepcopy(i); del j["blocks"][b]["txs"][t]; yield j
+        if i["bday"] >= 0 and i["blocks"]:
+            hs = [b["h"] for b in i["blocks"]]
+            if hs != list(range(1, len(hs) + 1)) or i["len"] != len(hs):
+                j = copy.deepcopy(i)
+                for n, b in enumerate(j["blocks"]):
+                    b["h"] = n + 1
+                j["len"] = len(hs)
+                j["cuts"] = sorted({sum(1 for h in hs if h <= c) for c in i["cuts"]} | {len(hs)})
+                j["bday"] = 0 if i["bday"] == 0 else 1 + sum(1 for h in hs if h < i["bday"])
+                yield j
+
+    def shrink(self, case, kind):
+        budget = 80
+        cur = case
+        progress = True
+        while progress and budget > 0:
+            progress = False
+            for cand in self._candidates(cur["in"]):
+                if budget <= 0:
+                    break
+                budget -= 1
+                r = self._rerun(cand, kind)
+                if r is not None:
+                    cur = r
+                    progress = True
+                    break
+        return cur
+
     def render_case(self, c):
         i, o = c["in"], c["obs"]
         if i["kind"] == "birthday":
